@@ -9,6 +9,7 @@ import (
 	"math/rand"
 	"net"
 	"strconv"
+	"strings"
 	"time"
 
 	"github.com/ethereum/go-ethereum/crypto"
@@ -242,6 +243,60 @@ func runC15(o *Out, r *rand.Rand, thorough bool, _ []string) {
 				m = append(m[:k], m[k+1:]...)
 			}
 			emitDec("mut", m)
+		}
+	}
+	// 1b. items of 2^28 bytes and more, where the length prefix takes its fifth byte: too large to spell out, so the values are
+	// all zero, the line carries the lengths, and the harness itself checks where each prefix and each value lies
+	{
+		huge := make([]byte, 1<<28+1)
+		lists := [][]int{{1 << 28}, {3, 1 << 28}, {1<<28 - 1}}
+		if thorough {
+			lists = append(lists, []int{1 << 28, 1<<28 + 1}, []int{1 << 28, 0, 5})
+		}
+		for _, lens := range lists {
+			var raw [][]byte
+			var ls []string
+			for _, l := range lens {
+				raw = append(raw, huge[:l])
+				ls = append(ls, strconv.Itoa(l))
+			}
+			out := func() (res string) {
+				defer func() {
+					if recover() != nil {
+						res = "panic"
+					}
+				}()
+				enc := portalwire.VerifEncodeContents(raw)
+				// where each prefix starts follows from the lengths (own arithmetic: 7 bits per prefix byte)
+				var prefixes []string
+				bodies, pos := 1, 0
+				for _, l := range lens {
+					pl := 1
+					for v := l; v >= 128; v >>= 7 {
+						pl++
+					}
+					if pos+pl+l > len(enc) {
+						bodies = 0
+						break
+					}
+					prefixes = append(prefixes, canon(enc[pos:pos+pl]))
+					if !bytes.Equal(enc[pos+pl:pos+pl+l], huge[:l]) {
+						bodies = 0
+					}
+					pos += pl + l
+				}
+				rt := "diff"
+				if back, err := c15DecodeContents(enc); err == nil && len(back) == len(raw) {
+					rt = "same"
+					for j := range raw {
+						if !bytes.Equal(raw[j], back[j]) {
+							rt = "diff"
+						}
+					}
+				}
+				return fmt.Sprintf("outlen=%d prefixes=%s bodies=%d rt=%s", len(enc), strings.Join(prefixes, ","), bodies, rt)
+			}()
+			o.Case("hugeenc "+strings.Join(ls, ","), out)
 		}
 	}
 	// 2. edge varints and hand-picked streams
